@@ -11,6 +11,7 @@ import (
 	"sort"
 	"strconv"
 	"strings"
+	"time"
 
 	"github.com/google/uuid"
 
@@ -358,6 +359,11 @@ func CrashVerify(caseFile, dir, logPath string) int {
 			written[o.ID] = o
 		}
 	}
+	// the verifier is a plain process (real scheduling): it is an observer only, so the workload's
+	// simulated-time knobs (a GC period of microseconds) must not turn into real-time background
+	// churn racing with its reads
+	c.Seq.World.GCPeriodNs = int64(time.Hour)
+	c.Seq.World.SendDurNs = int64(time.Millisecond)
 	w := worldAt(dir, c.Seq.World, c.Seq.Sched.Seed+1, false)
 	out.First = readState(w, written)
 	w2 := worldAt(dir, c.Seq.World, c.Seq.Sched.Seed+2, false)
@@ -490,6 +496,8 @@ func unionKeys(ms ...map[string]uint64) map[string]bool {
 
 // ---- orchestration (worker side) -------------------------------------------------------------------
 
+var lastStderr string
+
 func runSelf(args ...string) ([]byte, int) {
 	self, _ := os.Executable()
 	cmd := exec.Command(self, args...)
@@ -498,6 +506,10 @@ func runSelf(args ...string) ([]byte, int) {
 	cmd.Stderr = &stderr
 	out, err := cmd.Output()
 	code := 0
+	lastStderr = stderr.String()
+	if len(lastStderr) > 1500 {
+		lastStderr = lastStderr[:1500]
+	}
 	if err != nil {
 		if ee, ok := err.(*exec.ExitError); ok {
 			code = ee.ExitCode() // -1 when killed by a signal
@@ -534,7 +546,7 @@ func (propC04) Exec(x any, _ []int32) RunOut {
 		raw, code := runSelf("crash-verify", "-case", caseFile, "-dir", dir, "-log", logp)
 		var v verifyOut
 		if code != 0 || json.Unmarshal(raw, &v) != nil {
-			return nil, fmt.Sprintf("verifier failed (%s, exit %d)", what, code)
+			return nil, fmt.Sprintf("verifier failed (%s, exit %d): %s", what, code, lastStderr)
 		}
 		return &v, ""
 	}
